@@ -115,7 +115,7 @@ class FlowGen:
             keys += [self.key_expr(roots[3], f"{path}/{40 + i}h", f"/{branch}/*") for i in range(12)]
         return parse(add_checksum(tmpl.format(*keys)), network)
 
-    def build(self, shapes=None, n_inputs=None, psbt_version=None, sighash="random", lock=None) -> Flow:
+    def build(self, shapes=None, n_inputs=None, psbt_version=None, sighash="random", lock=None, sighash_first=None) -> Flow:
         """Create + update a PSBT spending ``n_inputs`` outputs of the given shapes."""
         from btclib.psbt.psbt import Psbt
         from btclib.script import ScriptPubKey
@@ -158,7 +158,11 @@ class FlowGen:
                 psbt.inputs[k].witness_utxo = fund.vout[pos]
             if not taproot and (legacy or r.random() < 0.7):
                 psbt.inputs[k].non_witness_utxo = fund
-            if sighash == "random":
+            if k == 0 and sighash_first is not None:
+                # the caller walks the hash types in turn (a short run still meets every one of them)
+                kinds = TAPROOT_SIGHASH if taproot else LEGACY_SIGHASH
+                ht = kinds[sighash_first % len(kinds)]
+            elif sighash == "random":
                 ht = r.choice(TAPROOT_SIGHASH if taproot else LEGACY_SIGHASH) if r.random() < 0.6 else None
             else:
                 ht = sighash
